@@ -792,7 +792,64 @@ pub fn run_c03(ctx: &mut Ctx) {
         },
         declined_ep_json,
     );
+    run_prop(
+        ctx,
+        "very_long_move_lists",
+        long_game_strategy,
+        t.pick(48, 1_200),
+        |g, st| {
+            let v = long_game_json(g);
+            st.eval();
+            let bytes = v["position"].as_str().map(|x| x.len()).unwrap_or(0);
+            st.label(&format!("position_line_of_{}_KiB_or_more", [64, 32, 16, 8, 4, 0].iter().find(|&&k| bytes >= k * 1024).unwrap()));
+            st.sample(|| json!({"position_line_bytes": bytes, "plies": v["plies"], "line_starts": v["position"].as_str().map(|x| x.chars().take(90).collect::<String>()), "gos": v["gos"]}));
+            if bytes > 4096 {
+                st.nontrivial(fp(&v.to_string()));
+            }
+            replay_go_session(&v, false)
+        },
+        long_game_json,
+    );
     ctx.workers = saved;
+}
+
+/// C03 on very long games: `position ... moves` lines of 700 to 13500 plies (3.5 KiB to 66 KiB of
+/// text). The walk prefers quiet piece moves so that the game goes on; the oracle tracks the board.
+#[derive(Debug, Clone)]
+pub struct LongGame {
+    pub start: usize,
+    pub seed: u64,
+    pub plies: u32,
+    pub second: u8,
+}
+fn long_game_strategy() -> impl Strategy<Value = LongGame> {
+    (0usize..8, any::<u64>(), prop_oneof![3 => 700u32..1000, 3 => 1500u32..1800, 2 => 3000u32..3600, 1 => 6200u32..7000, 1 => 12_800u32..13_500], 0u8..4).prop_map(|(start, seed, plies, second)| LongGame { start, seed, plies, second })
+}
+fn long_game_json(g: &LongGame) -> Value {
+    let idx = gamelike_indices();
+    let mut p = if g.start < 3 { Pos::startpos() } else { corpus_pos(idx[(g.start * 7) % idx.len()]) };
+    let from_startpos = p == Pos::startpos();
+    let start_fen = p.fen();
+    let mut x = g.seed | 1;
+    let mut names: Vec<String> = vec![];
+    for _ in 0..g.plies {
+        let ms = p.legal_moves();
+        if ms.is_empty() {
+            break;
+        }
+        x = x.wrapping_mul(6364136223846793005).wrapping_add(1442695040888963407);
+        let quiet: Vec<&Move> = ms.iter().filter(|m| p.sq[m.to as usize].is_none() && !matches!(p.sq[m.from as usize], Some((_, Kind::Pawn)))).collect();
+        let pool: Vec<&Move> = if !quiet.is_empty() && (x >> 60) != 0 { quiet } else { ms.iter().collect() };
+        // keep the game unfinished: take the first move of the rotation that does not end it
+        let k0 = ((x >> 20) as usize) % pool.len();
+        let Some((m, q)) = (0..pool.len()).map(|d| pool[(k0 + d) % pool.len()]).map(|m| (m.clone(), p.apply(m))).find(|(_, q)| !q.legal_moves().is_empty()) else { break };
+        names.push(mv_name(&m));
+        p = q;
+    }
+    let moves = if names.is_empty() { String::new() } else { format!(" moves {}", names.join(" ")) };
+    let text = if from_startpos { format!("position startpos{}", moves) } else { format!("position fen {}{}", start_fen, moves) };
+    let second = ["go", "go wtime 200 btime 200 movestogo 10", "go wtime 130 btime 130 winc 10 binc 10", "go movestogo 3"][g.second as usize % 4];
+    json!({"position": text, "gos": ["go", second], "plies": names.len()})
 }
 
 /// C18 with enormous clocks ("all clock settings"): the search runs until the process is killed; the
@@ -2064,6 +2121,12 @@ fn junk_line() -> impl Strategy<Value = String> {
         1 => Just("GO".to_string()),
         1 => "[a-z]{200,600}",
         1 => "\\PC{1,12}".prop_map(|s| s.replace(['\n', '\r'], " ")),
+        // very long lines. One word whose tail, starting at a power-of-two byte offset, spells a
+        // command: a reader that cuts lines at a buffer size would execute the tail
+        1 => (10u32..=16, prop_oneof![Just("quit"), Just("position startpos moves e2e4"), Just("position fen 8/8/8/8/8/8/8/K6k w - - 0 1"), Just("go"), Just("isready")], prop_oneof![Just('x'), Just('q'), Just('0')])
+            .prop_map(|(k, tail, ch)| format!("{}{}", ch.to_string().repeat(1usize << k), tail)),
+        // ... and long lines of multi-byte characters (a cut at a byte offset lands inside a character)
+        1 => (300usize..30_000, 0usize..3, prop_oneof![Just("\u{20ac}"), Just("\u{e9}"), Just("\u{1f600}")]).prop_map(|(n, pre, ch)| format!("{}{}", &"ab"[..pre], ch.repeat(n))),
     ]
 }
 fn is_command_word(w: &str) -> bool {
@@ -2143,12 +2206,23 @@ pub fn c17_core(ptext: &str, p: &Pos, c: &C17Case, st: &mut Stats) -> CaseResult
             let a = do_go(&mut e, &spaced("go", c.go_noise >> 2), 0).map_err(|m| format!("after ignorable lines: {}", m))?;
             let bm = a.bestmove.unwrap_or_default();
             if bm != base {
-                return Err(format!("after ignorable lines {:?} the zero-allowance answer to `{}` changed from {:?} to {:?}", c.junk.iter().take(i + 1).map(|x| &x.1).collect::<Vec<_>>(), ptext, base, bm));
+                return Err(format!("after ignorable lines {:?} the zero-allowance answer to `{}` changed from {:?} to {:?}", c.junk.iter().take(i + 1).map(|x| x.1.chars().take(80).collect::<String>()).collect::<Vec<_>>(), ptext, base, bm));
             }
             e.send(&ptext);
         }
     }
     e.isready(Duration::from_secs(2))?;
+    if c.junk.len() > 1 {
+        // the lines after the mid-way probe must have left the position alone as well
+        let a = do_go(&mut e, "go", 0).map_err(|m| format!("after all ignorable lines: {}", m))?;
+        let bm = a.bestmove.unwrap_or_default();
+        if bm != base {
+            return Err(format!("after ignorable lines {:?} the zero-allowance answer to `{}` changed from {:?} to {:?}", c.junk.iter().map(|x| x.1.chars().take(80).collect::<String>()).collect::<Vec<_>>(), ptext, base, bm));
+        }
+    }
+    if c.junk.iter().any(|x| x.1.len() > 1000) {
+        st.label("session_with_a_line_longer_than_1000_bytes");
+    }
     // unknown tokens inside go, at key boundaries, with a real slice: the clock must still be read
     let slice = 30 + (c.slice % 60) as u64;
     let clock = 100 + slice * 30 * 10 / 8 + 1;
@@ -2255,7 +2329,22 @@ pub fn run_c17(ctx: &mut Ctx) {
         || (pos_spec_strategy(), proptest::collection::vec((any::<u8>(), junk_line()), 0..10), prop_oneof![2 => Just(0u8), 2 => Just(1u8), 3 => Just(2u8), 3 => Just(3u8), 1 => Just(4u8), 3 => Just(5u8), 2 => Just(6u8), 3 => Just(7u8)], any::<u16>(), any::<u8>()).prop_map(|(pos, junk, ending, slice, go_noise)| C17Case { pos, junk, ending, slice, go_noise }),
         t.pick(650, 25_000),
         |c, st| {
-            st.sample(|| c17_json(c));
+            st.sample(|| {
+                // samples abbreviate very long lines (the replay file of a violation keeps them whole)
+                let mut v = c17_json(c);
+                if let Some(a) = v.get_mut("junk").and_then(|x| x.as_array_mut()) {
+                    for j in a.iter_mut() {
+                        if let Some(t) = j.get(1).and_then(|x| x.as_str()).map(|t| t.to_string()) {
+                            if t.len() > 120 {
+                                let head: String = t.chars().take(24).collect();
+                                let tail: String = t.chars().rev().take(44).collect::<Vec<_>>().into_iter().rev().collect();
+                                j[1] = json!(format!("{}...[{} bytes]...{}", head, t.len(), tail));
+                            }
+                        }
+                    }
+                }
+                v
+            });
             c17_case(c, st)
         },
         c17_json,
